@@ -886,9 +886,14 @@ fn generate_scalars(a: &Args) -> i32 {
                 // plain untagged scalars meet EVERY target (the interpretation table of the property); other styles and
                 // tags meet a random sample of targets
                 let exhaustive = style == 0 && tag.is_empty();
-                let rounds = if exhaustive { targets.len() } else { per };
+                // null spellings in every OTHER style (quoted, literal, folded) always meet the Option / String / untyped targets:
+                // only a plain scalar is null
+                let nullish = matches!(tok.as_str(), "~" | "null" | "Null" | "NULL" | "");
+                let forced: Vec<Ty> = if nullish && style > 0 && (tag.is_empty() || tag == "!!str " || tag == "!!null ") {
+                    vec![Ty::Option(Box::new(Ty::Str)), Ty::Option(Box::new(Ty::Int(true, 32))), Ty::Str, Ty::Any, Ty::Unit] } else { Vec::new() };
+                let rounds = if exhaustive { targets.len() } else { per + forced.len() };
                 for ri in 0..rounds {
-                    let t0 = if exhaustive { targets[ri].clone() } else { rng.pick(&targets).clone() };
+                    let t0 = if exhaustive { targets[ri].clone() } else if ri < forced.len() { forced[ri].clone() } else { rng.pick(&targets).clone() };
                     let ty = if in_map { Ty::Struct(vec![("k", t0)], false) } else { t0 };
                     let cfg = Cfg { dup: 0, legacy_octal: rng.chance(1, 2), strict_bool: rng.chance(1, 2), ignore_binary: rng.chance(1, 2), no_schema: rng.chance(1, 2),
                                     budget: None, limits: AliasLimits::default() };
